@@ -300,6 +300,101 @@ def thread_schedules(ctx):
     ctx.cov.update(thread_groups=len(groups), thread_executions=total_exec, thread_scheduling_points=total_points, thread_distinct_outcomes=len(distinct), preemption_bound=2)
 
 
+def interleave_worker(chunk, seed, tier):
+    """Two (or three) partially consumed load_many iterators advanced in every interleaving of their steps."""
+    from iodata import load_many, load_one
+    from mc.core import Part, make_scratch
+    from props import c13
+
+    part = Part(seed, tier)
+    tmp = make_scratch()
+    try:
+        files = {}
+        for fmt, fname in c13.READ_FORMATS.items():
+            texts = c13.read_menu(fmt)
+            for tag, seq in (("A", (0, 1, 2)), ("B", (3, 4, 1))):
+                path = str(tmp / f"{tag}_{fname}")
+                with open(path, "w") as fh:
+                    fh.write("".join(texts[k] for k in seq))
+                files[(fmt, tag)] = path
+            path = str(tmp / f"S_{fname}")
+            with open(path, "w") as fh:
+                fh.write(texts[0])
+            files[(fmt, "S")] = path
+
+        def alone(key):
+            with warnings.catch_warnings():
+                warnings.simplefilter("ignore")
+                return [c16calls.digest_obj(o) for o in load_many(files[key])]
+
+        ref = {}
+        for (fa, fb), order in chunk:
+            part.count()
+            keys = [(fa, "A"), (fb, "B")]
+            for k in keys:
+                if k not in ref:
+                    ref[k] = alone(k)
+            info = {"files": [f"{k[0]}:{k[1]}" for k in keys], "order": "".join("AB?"[i] for i in order)}
+            part.nontrivial(repr(info))
+            got = [[], []]
+            problem = None
+            with warnings.catch_warnings():
+                warnings.simplefilter("ignore")
+                its = [load_many(files[k]) for k in keys]
+                done = [False, False]
+                for who in order:
+                    if who == 2:
+                        # an unrelated complete call between two steps
+                        try:
+                            load_one(files[(fa, "S")])
+                        except Exception as exc:  # noqa: BLE001
+                            problem = f"load_one between the steps raised {exc!r}"
+                        continue
+                    if done[who]:
+                        continue
+                    try:
+                        got[who].append(c16calls.digest_obj(next(its[who])))
+                    except StopIteration:
+                        done[who] = True
+                    except Exception as exc:  # noqa: BLE001
+                        done[who] = True
+                        problem = f"iterator {who} raised {exc!r} caused by {exc.__cause__!r}"
+                for i in (0, 1):  # drain
+                    if not done[i]:
+                        try:
+                            got[i] += [c16calls.digest_obj(o) for o in its[i]]
+                        except Exception as exc:  # noqa: BLE001
+                            problem = f"iterator {i} raised {exc!r} when drained"
+            ok = problem is None and got[0] == ref[keys[0]] and got[1] == ref[keys[1]]
+            part.outcome("interleaved-iterators", "as-alone" if ok else "DIFFERS")
+            if not ok:
+                part.violation("interleaving", f"interleaved-load_many:{fa}+{fb}:frames-differ-from-alone", info,
+                               f"load_many({fa}) and load_many({fb}) advanced in the order {info['order']}: {problem or ''} frames {[len(g) for g in got]} vs alone {[len(ref[k]) for k in keys]}"
+                               f"{'' if problem else ' (same count, different content)' if [len(g) for g in got] == [len(ref[k]) for k in keys] else ''}")
+    finally:
+        shutil.rmtree(tmp, ignore_errors=True)
+    return part.result()
+
+
+def interleaved_iterators(ctx):
+    """Sequential interleaving: every order of the steps of two frame iterators (4 steps each incl. the exhausting one),
+    same-format and cross-format, optionally with one unrelated load_one between two steps."""
+    from mc.pool import pmap
+    from props import c13
+
+    fmts = list(c13.READ_FORMATS)
+    pairs = [(a, b) for i, a in enumerate(fmts) for b in fmts[i:]]
+    orders = sorted(set(itertools.permutations([0] * 4 + [1] * 4)))
+    jobs = [(pr, o) for pr in pairs for o in orders]
+    # one unrelated call inserted at every position of the three 'extreme' orders
+    for pr in pairs:
+        for base in ((0, 1) * 4, (0, 0, 1, 1) * 2, (0,) * 2 + (1,) * 4 + (0,) * 2):
+            for pos in range(1, 8):
+                jobs.append((pr, base[:pos] + (2,) + base[pos:]))
+    pmap(ctx, interleave_worker, jobs, chunk=128)
+    ctx.cov.update(interleaved_iterator_pairs=len(pairs), interleaved_iterator_orders=len(jobs))
+
+
 def dense_pairs():
     from mc.core import CORPUS
 
@@ -447,6 +542,7 @@ def run(ctx):
     states = 1 + len({v.sig for v in ctx.violations if v.clause == "tables"})
     ctx.cov.update(pool_calls=n, histories=len(hists), states=states, transitions=sum(len(h[0]) for h in hists),
                    traces_validated_against_impl=len(hists), depth_completed=3 if ctx.thorough else 2)
+    interleaved_iterators(ctx)
     thread_schedules(ctx)
     dense_thread_pass(ctx)
     ctx.evaluations += 0
@@ -457,7 +553,9 @@ def run(ctx):
         "(thorough: all triples of a 10-call sub-pool) executed from the initial interpreter state (forked child per history); each step's result (object/file digest, exception type+message, warnings) must "
         "equal the same call alone in a fresh interpreter, and the snapshot of all module-level tables + warnings machinery must stay the initial one (one state, |pool| self-loops proves order independence). "
         "threads: all schedules with <= 2 preemptions of every pair (thorough: also triples) from a 6-call sub-pool, scheduling points at every line of the public-API wrapper and of "
-        "warnings.catch_warnings.__enter__/__exit__; second pass: two threads using the same format module on distinct data (1 pair quick, 22 thorough) with a scheduling point at every line of iodata code and all schedules with <= 1 preemption."
+        "warnings.catch_warnings.__enter__/__exit__; second pass: two threads using the same format module on distinct data (5 pairs quick, 22 thorough) with a scheduling point at every line of iodata code (first 2 / 4 visits of each line per thread) and all schedules with <= 1 preemption. "
+        "interleaved iterators: every order of the 4+4 steps of two load_many iterators (21 same-/cross-format pairs of XYZ, SDF, MOL2, PDB, GRO, extXYZ trajectories from independent writers), "
+        "plus one unrelated load_one inserted at every position of three orders; every frame must equal the frame obtained when the iterator runs alone."
     )
     ctx.assumptions += ["thread exploration: scheduling points only where process-global state is touched (API wrapper, catch_warnings); module tables are shown read-only by the sequential part",
                         "results are compared through deep bit-exact snapshots / file digests"]
